@@ -78,7 +78,12 @@ JudgeW(r) ==
   ELSE WalkW(r, <<>>, 0, 1)
 
 (* ------------------------------ two append handles (informational) ------------------------------ *)
-Info(r, what) == << <<"skip", "two-append-handles", r.be, what>> >>
+\* On the real filesystem an append handle is O_APPEND ("appends to it"): every write lands at the end whatever other appenders did,
+\* so the content only grows and ends as base + all writes - binding for Stdfs.  Memfs' append handles work on a private copy of the
+\* file and replace it at flush (recorded deviation, DESIGN 3.6): informational there.
+Info(r, what) == IF r.be = "stdfs" /\ what \notin {"o_append-holds", "setup-or-open-failed", "write-error"}
+                 THEN << <<"BAD", "w2:stdfs", "append-handle-is-not-append-only", what>> >>
+                 ELSE << <<IF r.be = "stdfs" /\ what = "o_append-holds" THEN "ok" ELSE "skip", "two-append-handles", r.be, what>> >>
 \* wr = <<written through 1, written through 2>>, lastc = content at the previous observation
 RECURSIVE WalkW2(_, _, _, _)
 WalkW2(r, wr, lastc, i) ==
